@@ -29,6 +29,44 @@ def configOf (threads batch : String) : Option (Option Config) :=
     | some b => if b = 0 then none else some (setBatchSize c b)
     | none => none
 
+/-- apply a sequence of setter calls `t<n>` / `b<n>` (`?` suffix: a refusal is ignored and leaves the
+    configuration unchanged); `none` = malformed, `some none` = a refusal that is not ignored -/
+def configSeq (seq : String) : Option (Option Config) :=
+  (seq.splitOn "+").foldl (fun (acc : Option (Option Config)) tok =>
+    match acc with
+    | none => none
+    | some none => some none
+    | some (some c) =>
+      if tok == "-" then some (some c) else
+      let lenient := tok.endsWith "?"
+      let tok := if lenient then (tok.dropEnd 1).toString else tok
+      match (tok.drop 1).toString.toNat? with
+      | none => none
+      | some n =>
+        if n = 0 then none else
+        let r := if tok.startsWith "t" then some (setNumThreads c n)
+                 else if tok.startsWith "b" then some (setBatchSize c n) else none
+        match r with
+        | none => none
+        | some (some c') => some (some c')
+        | some none => if lenient then some (some c) else some none) (some (some defaultConfig))
+
+def opDlogSeq (a : List String) : String :=
+  let G : CPt := PedGens.G
+  match a with
+  | [t, k, seq] =>
+    match ptOfHex t, configSeq seq with
+    | some target, some cfg =>
+      match cfg with
+      | none => "err"
+      | some _ =>
+        if k == "?" then "none" else
+        match scOfHex k with
+        | some k => if target == k • G then (if k.v < 2^32 then s!"some:{k.v}" else "none") else "bad-oracle"
+        | none => "bad-op"
+    | _, _ => "bad-op"
+  | _ => "bad-op"
+
 def opDlog (a : List String) : String :=
   let G : CPt := PedGens.G
   match a with
